@@ -219,6 +219,94 @@ def c02_replay(ctx, rp):
     return (1 if bad else 0), so, se, secs
 
 
+# ---------------------------------------------------------------------- C15 instruction counts
+
+C15_FAMILIES = ["nest", "nest-noname", "nest-multi", "set-width", "coll-set", "attr-count", "group-count", "member-count",
+                "value-len", "name-len", "unterminated", "endcoll-flood", "member-flood", "addl-no-attr"]
+C15_RATIO_LIMIT = 2.6
+
+
+def c15_irefs(ctx, fam, size, use_async):
+    import re
+    cmd = ["valgrind", "--tool=cachegrind", "--cache-sim=no", "--cachegrind-out-file=/dev/null",
+           _bin(ctx, "vcore"), "cost", "--family", fam, "--size", str(size)] + (["--async"] if use_async else [])
+    rc, so, se, secs = ctx["run"](cmd, timeout=1800)
+    m = re.search(r"I\s+refs:\s+([\d,]+)", se)
+    n = re.search(r"input_bytes=(\d+)", so)
+    if rc is None:
+        return None, None, "timeout"
+    if rc != 0 or not m or not n:
+        return None, None, f"rc={rc}: {se[-200:]}"
+    return int(m.group(1).replace(",", "")), int(n.group(1)), None
+
+
+def c15_series(ctx, job):
+    fam, use_async, max_size = job
+    key = f"{fam}/{'async' if use_async else 'blocking'}"
+    series, viol, inconcl = [], [], []
+    size = 4096
+    while size <= max_size:
+        irefs, n, err = c15_irefs(ctx, fam, size, use_async)
+        if err == "timeout":
+            # >100x backstop: a linear parse of <= 1 MiB under cachegrind takes seconds, not half an hour
+            inconcl.append(f"watchdog: cachegrind run {key} size {size} exceeded 1800 s")
+            break
+        if err:
+            inconcl.append(f"cachegrind run {key} size {size} failed: {err}")
+            break
+        series.append((n, irefs))
+        if len(series) >= 3:
+            d1 = series[-2][1] - series[-3][1]
+            d2 = series[-1][1] - series[-2][1]
+            if d1 > 200_000:
+                ratio = d2 / d1
+                if ratio > C15_RATIO_LIMIT:
+                    viol.append({
+                        "signature": f"C15:superlinear-instructions:{fam}",
+                        "detail": f"{key}: instructions grow by x{ratio:.2f} per doubling at {n} input bytes (series (input bytes, I refs): {series}); linear is 2, quadratic 4, limit {C15_RATIO_LIMIT}",
+                        "replay": ["cost", "--family", fam, "--size", str(size)] + (["--async"] if use_async else []),
+                        "binary": "vcore"})
+                    break  # stop the series at the first violating doubling
+        size *= 2
+    return key, series, viol, inconcl
+
+
+def c15_cachegrind(ctx):
+    max_size = (1 << 20) if ctx["tier"] == "thorough" else (64 << 10)
+    jobs = [(f, a, max_size) for f in C15_FAMILIES for a in (False, True)]
+    out = _pool(jobs, lambda j: c15_series(ctx, j))
+    r = _empty_result(ctx)
+    allseries = {}
+    worst = 0.0
+    for key, series, viol, inconcl in out:
+        allseries[key] = series
+        r["coverage"]["evaluations"] += len(series)
+        r["coverage"]["distinct_nontrivial"] += len(series)
+        r["violations"] += viol
+        r["violations_total"] += len(viol)
+        r["inconclusive"] += inconcl
+        for i in range(2, len(series)):
+            d1 = series[i - 1][1] - series[i - 2][1]
+            d2 = series[i][1] - series[i - 1][1]
+            if d1 > 200_000:
+                worst = max(worst, d2 / d1)
+    r["coverage"]["instruction_series"] = allseries
+    r["coverage"]["counters"]["max_instruction_ratio_x1000"] = int(worst * 1000)
+    r["layers"] = [{"tool": "valgrind cachegrind (--cache-sim=no), instruction counts of a process that only parses",
+                    "runs": sum(len(s) for s in allseries.values()), "worst_incremental_ratio": round(worst, 3), "reports": len(r["violations"])}]
+    return r
+
+
+def c15_replay(ctx, rp):
+    if rp["argv"] and rp["argv"][0] == "cost":
+        fam = rp["argv"][rp["argv"].index("--family") + 1]
+        size = int(rp["argv"][rp["argv"].index("--size") + 1])
+        key, series, viol, inconcl = c15_series(ctx, (fam, "--async" in rp["argv"], size))
+        out = f"series {key}: {series}\n" + "".join(f"VIOLATION-REPLAYED {v['signature']}: {v['detail']}\n" for v in viol)
+        return (1 if viol else 0), out, "", 0
+    return vcore_check("c15")["replay"](ctx, rp)
+
+
 CHECKS = {
     "C02": {"build": vcore_build, "steps": c02_steps, "replay": c02_replay, "level": "exploration"},
     "C01": vcore_check("c01"),
@@ -227,8 +315,13 @@ CHECKS = {
     "C05": vcore_check("c05"),
     "C06": vcore_check("c06"),
     "C07": vcore_check("c07", level="fault_enumeration"),
+    "C08": vcore_check("c08"),
     "C09": vcore_check("c09"),
     "C10": vcore_check("c10"),
     "C13": vcore_check("c13"),
     "C14": vcore_check("c14"),
+    "C15": dict(vcore_check("c15", extra_steps=[c15_cachegrind]), replay=c15_replay),
+    "C16": vcore_check("c16"),
+    "C17": vcore_check("c17"),
+    "C19": vcore_check("c19"),
 }
